@@ -94,6 +94,10 @@ class ServeManifest(RequestHandlerBase):
         elif mft.segment_timeline or options.patch:
             options.update(segmentTimeline=True)
         options.remove_unused_parameters(mode)
+        if current_stream.timing_reference is None:
+            logging.warning('stream.timing_reference has not been configured')
+            return flask.make_response(
+                'stream.timing_reference has not been configured', 404)
         if options.encrypted and not models.MediaFile.search(
                 stream=current_stream, content_type='video', encrypted=True,
                 max_items=1):
@@ -275,6 +279,10 @@ class ServePatch(RequestHandlerBase):
 
         options.update(patch=True, segmentTimeline=True)
         options.remove_unused_parameters('live')
+        if current_stream.timing_reference is None:
+            logging.warning('stream.timing_reference has not been configured')
+            return flask.make_response(
+                'stream.timing_reference has not been configured', 404)
         original_publish_time = datetime.datetime.fromtimestamp(
             publish, tz=UTC())
         dash = ManifestContext(
